@@ -118,7 +118,11 @@ class _Run:
         c.sched_cfg = None
         c.entropy = E.Entropy("pinned")
         c.entropy.os_by_task = self.os_base
-        c.fault_plan = P.FaultPlan(fire)
+        # what the failing inner estimator raises: a RuntimeError, a ValueError
+        # (what input validation raises) or an interruption that is not an
+        # Exception at all (only try/finally restores state then)
+        kind = self.c.ch.weighted("f", [("runtime", 3), ("value", 2), ("cancel", 1)], "fault-kind") if fire else "runtime"
+        c.fault_plan = P.FaultPlan(fire, kind)
         numpy.random.seed(self.g % (2**32 - 1))
 
     def check_frame(self, est, fp0, snap0, extra_watch, opname, exempt):
@@ -217,7 +221,7 @@ class _Run:
                     if fired:
                         return  # a swallowed fault: the model is not comparable
                 else:
-                    if not isinstance(r, P.InjectedFault) and not _caused_by_injected(r):
+                    if not isinstance(r, (P.InjectedFault, P.InjectedCancel)) and not _caused_by_injected(r):
                         c.probe("fit_failed_differently")
                     failed_kinds.append("peer-fault")
                 self.check_frame(est, fp0, snap0, [], "failed-fit(peer-fault)", exempt)
@@ -303,7 +307,7 @@ class _Run:
 def _caused_by_injected(e):
     seen = 0
     while e is not None and seen < 10:
-        if isinstance(e, P.InjectedFault):
+        if isinstance(e, (P.InjectedFault, P.InjectedCancel)):
             return True
         e = e.__cause__ or e.__context__
         seen += 1
